@@ -174,6 +174,23 @@ simple("C09", "fault_enumeration",
        batches=(16, 48), timeout=(400, 3400))
 
 
+simple("C16", "exploration",
+       "seeded random scenarios of 2..4 real controllers (hwmon fans on quantising virtual devices with 3/4/6/9 levels = different analysis lengths) starting after random delays "
+       "(0..150 ms, fixed waits divided by 50), through RunInitializationSequence() or Run(); every device event has a global sequence number; analysis interval = [first write to "
+       "the fan, call storing its RPM curve]; with runFanInitializationInParallel false no two intervals may overlap (logical order); positive control: the same workload with the "
+       "option true must show an overlap; non-trivial = scenario whose positive control overlapped; distinct by (fans, entry point, levels, delays)",
+       TRUST_L1 + ["fixed waits of the controller divided by 50"], batches=(8, 16), timeout=(600, 3000))
+
+
+simple("C15", "exploration",
+       "in-process layer: seeded random sequences of start / reset / init (3..7 operations, first and last a start) against one real bbolt database for hwmon, file and cmd fans, with / "
+       "without a configured pwmMap, with / without configured minPwm+maxPwm; a start = new fan and controller objects + Run() until the first regulation cycle; observed before that "
+       "cycle: distinct PWM values written (a sweep writes 256) and RPM reads (only the RPM-curve measurement reads RPM then); non-trivial = sequence containing a start with stored data; "
+       "distinct by (fan class, operation sequence)",
+       TRUST_L1 + ["fixed waits of the controller divided by 50", "a start is emulated by fresh objects in the same process; the process-level layer restarts the real daemon"],
+       batches=(8, 16), timeout=(600, 3000))
+
+
 def c14(p, tier, work, t0, replay):
     _src, vh = build_vh(work)
     q = tier == "quick"
